@@ -194,6 +194,7 @@ fn fitem_summary(it: &format::Item) -> (u8, i32, i32, i32) {
         format::Item::Finish(_) => (5, 0, 0, 0),
         format::Item::Join(i) => (6, i.cid, 0, 0),
         format::Item::Drop(i) => (7, i.cid, i.reason.len() as i32, 0),
+        format::Item::Message(i) => (9, i.cid, i.msg.len() as i32, 0),
         _ => (8, 0, 0, 0),
     }
 }
@@ -308,3 +309,555 @@ fn c17_tick_skip_clears_cid_witness() {
     core::mem::forget(buf);
 }
 
+
+// ---------------------------------------------------------------------------------------------
+// Fragmentation independence, decided compositionally:
+//  (1) c17_read_more_contract_*: the real Buffer::read_more from small pre-states (spare capacity /
+//      full with consumed prefix -> compaction / full without -> reserve) with a callback that delivers
+//      k symbolic bytes or end of stream: the unconsumed bytes stay the same and the delivered bytes are
+//      appended behind them, or Err(UnexpectedEnd) and nothing changes.
+//  (2) c17_frag_*: the real Buffer::{read_kind, read_item} retry loops over the real decoders with
+//      read_more replaced by exactly that contract (`verif_read_more_model`): at every refill the model
+//      appends a *nondeterministic* number of the following stream bytes, so one solver query covers
+//      every way of cutting the record (within FRAG_MAX_REFILLS refills). The outcome is compared with
+//      the outcome on the completely buffered stream.
+
+static mut FRAG_STREAM: [u8; 8] = [0; 8];
+static mut FRAG_LEN: usize = 0;
+static mut FRAG_POS: usize = 0;
+static mut FRAG_REFILLS: usize = 0;
+/// bytes delivered per refill (concrete per harness: lengths that become buffer offsets are
+/// enumerated, DESIGN 3.1 rule 6); usize::MAX = "everything that is left"
+static mut FRAG_CHUNK: usize = 1;
+
+impl Buffer {
+    /// contract model of `read_more` (see c17_read_more_contract_*): appends the next FRAG_CHUNK
+    /// stream bytes behind the unconsumed ones, or reports the end of the stream
+    fn verif_read_more_model<CB: Callback>(&mut self, _cb: &mut CB) -> Result<(), Error<CB::Error>> {
+        unsafe {
+            if FRAG_POS >= FRAG_LEN {
+                return Err(format::Error::UnexpectedEnd.into());
+            }
+            FRAG_REFILLS += 1;
+            let left = FRAG_LEN - FRAG_POS;
+            let n = if FRAG_CHUNK < left { FRAG_CHUNK } else { left };
+            let mut i = 0;
+            while i < n {
+                // capacity was reserved by the harness: no reallocation
+                self.buffer.push(FRAG_STREAM[FRAG_POS + i]);
+                i += 1;
+            }
+            FRAG_POS += n;
+            Ok(())
+        }
+    }
+}
+
+/// callback delivering `k` prepared bytes per call (or end of stream when `eof`)
+struct ChunkCb {
+    data: [u8; 4],
+    k: usize,
+    eof: bool,
+    calls: usize,
+}
+impl Callback for ChunkCb {
+    type Error = ();
+    fn read_at_most(&mut self, buffer: &mut [u8]) -> Result<Option<usize>, ()> {
+        self.calls += 1;
+        if self.eof {
+            return Ok(None);
+        }
+        let n = if self.k < buffer.len() { self.k } else { buffer.len() };
+        let mut i = 0;
+        while i < n {
+            buffer[i] = self.data[i];
+            i += 1;
+        }
+        Ok(Some(n))
+    }
+}
+
+fn read_more_contract(cap: usize, len: usize, offset: usize) {
+    let content: [u8; 4] = kani::any();
+    let mut v = Vec::with_capacity(cap);
+    let mut i = 0;
+    while i < len {
+        v.push(content[i]);
+        i += 1;
+    }
+    let mut buf = Buffer { offset: offset, buffer: v };
+    let mut cb = ChunkCb { data: kani::any(), k: kani::any(), eof: kani::any(), calls: 0 };
+    kani::assume(cb.k <= 4);
+    let res = buf.read_more(&mut cb);
+    let pending_before = len - offset;
+    match res {
+        Ok(()) => {
+            assert!(!cb.eof);
+            assert!(cb.calls == 1);
+            assert!(buf.offset <= buf.buffer.len());
+            let pending_after = buf.buffer.len() - buf.offset;
+            // delivered = min(k, spare capacity offered); the unconsumed bytes are preserved in front
+            assert!(pending_after >= pending_before && pending_after - pending_before <= cb.k);
+            let mut j = 0;
+            while j < pending_before {
+                assert!(buf.buffer[buf.offset + j] == content[offset + j]);
+                j += 1;
+            }
+            let mut j = 0;
+            while j < pending_after - pending_before {
+                assert!(buf.buffer[buf.offset + pending_before + j] == cb.data[j]);
+                j += 1;
+            }
+            // a callback that has k >= 1 bytes makes progress (the buffer offered room)
+            assert!(cb.k == 0 || pending_after > pending_before);
+            kani::cover!(pending_after > pending_before);
+        }
+        Err(Error::Teehistorian(format::Error::UnexpectedEnd)) => {
+            assert!(cb.eof);
+            let pending_after = buf.buffer.len() - buf.offset;
+            assert!(pending_after == pending_before);
+            let mut j = 0;
+            while j < pending_before {
+                assert!(buf.buffer[buf.offset + j] == content[offset + j]);
+                j += 1;
+            }
+        }
+        Err(_) => assert!(false),
+    }
+    kani::cover!(res.is_ok());
+    kani::cover!(res.is_err());
+    core::mem::forget(buf);
+}
+
+#[kani::proof]
+#[kani::unwind(6)]
+fn c17_read_more_contract_spare_0_0() {
+    // spare capacity (capacity 8, 0 buffered, 0 consumed): the callback writes behind the buffered bytes
+    read_more_contract(8, 0, 0);
+}
+
+#[kani::proof]
+#[kani::unwind(6)]
+fn c17_read_more_contract_spare_2_0() {
+    // spare capacity (capacity 8, 2 buffered, 0 consumed): the callback writes behind the buffered bytes
+    read_more_contract(8, 2, 0);
+}
+
+#[kani::proof]
+#[kani::unwind(6)]
+fn c17_read_more_contract_spare_2_1() {
+    // spare capacity (capacity 8, 2 buffered, 1 consumed): the callback writes behind the buffered bytes
+    read_more_contract(8, 2, 1);
+}
+
+#[kani::proof]
+#[kani::unwind(6)]
+fn c17_read_more_contract_spare_3_3() {
+    // spare capacity (capacity 8, 3 buffered, 3 consumed): the callback writes behind the buffered bytes
+    read_more_contract(8, 3, 3);
+}
+
+#[kani::proof]
+#[kani::unwind(6)]
+fn c17_read_more_contract_compact_1() {
+    // full buffer (4 of 4) with 1 consumed bytes: the consumed prefix is dropped, then the callback is asked
+    read_more_contract(4, 4, 1);
+}
+
+#[kani::proof]
+#[kani::unwind(6)]
+fn c17_read_more_contract_compact_2() {
+    // full buffer (4 of 4) with 2 consumed bytes: the consumed prefix is dropped, then the callback is asked
+    read_more_contract(4, 4, 2);
+}
+
+#[kani::proof]
+#[kani::unwind(6)]
+fn c17_read_more_contract_compact_4() {
+    // full buffer (4 of 4) with 4 consumed bytes: the consumed prefix is dropped, then the callback is asked
+    read_more_contract(4, 4, 4);
+}
+
+#[kani::proof]
+#[kani::unwind(6)]
+fn c17_read_more_contract_grow() {
+    // full buffer, nothing consumed: the buffer grows (by BUFFER_SIZE), then the callback is asked
+    read_more_contract(4, 4, 0);
+}
+
+fn frag_setup<const N: usize>(rec: [u8; N], split: usize, chunk: usize) -> (Buffer, Buffer) {
+    // run A: everything buffered; run B: the first `split` bytes buffered, the rest behind the model,
+    // delivered `chunk` bytes per refill
+    let buf_a = buffer_with(&rec, N);
+    let buf_b = buffer_with(&rec, split);
+    unsafe {
+        let mut i = 0;
+        while i < N {
+            FRAG_STREAM[i] = rec[i];
+            i += 1;
+        }
+        FRAG_LEN = N;
+        FRAG_CHUNK = chunk;
+    }
+    (buf_a, buf_b)
+}
+
+fn frag_kind<const N: usize>(split: usize, chunk: usize) -> usize {
+    let rec: [u8; N] = kani::any();
+    let (mut buf_a, mut buf_b) = frag_setup(rec, split, chunk);
+    let mut cb = TailCb { data: [0; 8], len: 0, done: false };
+    unsafe { FRAG_POS = FRAG_LEN; }
+    let ra = parse_kind(&mut buf_a, &mut cb);
+    unsafe { FRAG_POS = split; FRAG_REFILLS = 0; }
+    let rb = parse_kind(&mut buf_b, &mut cb);
+    assert!(ra == rb);
+    kani::cover!(matches!(ra, Ok(((4, _), _))));
+    kani::cover!(ra == Err(1));
+    kani::cover!(ra == Err(2));
+    core::mem::forget(buf_a);
+    core::mem::forget(buf_b);
+    unsafe { FRAG_REFILLS }
+}
+
+#[kani::proof]
+#[kani::unwind(8)]
+#[kani::stub(Buffer::read_more, Buffer::verif_read_more_model)]
+fn c17_frag_kind_bytewise() {
+    // record-kind prefix (one or two variable-length integers) of every 4-byte stream delivered one
+    // byte per read result: same kind / same error class and consumed byte count as when the whole
+    // stream is buffered
+    let refills = frag_kind::<4>(0, 1);
+    kani::cover!(refills == 4);
+}
+
+#[kani::proof]
+#[kani::unwind(8)]
+#[kani::stub(Buffer::read_more, Buffer::verif_read_more_model)]
+fn c17_frag_kind_two_piece() {
+    // every two-piece split of every 3-byte stream
+    frag_kind::<3>(0, usize::MAX);
+    frag_kind::<3>(1, usize::MAX);
+    frag_kind::<3>(2, usize::MAX);
+}
+
+fn parse_item(buf: &mut Buffer, cb: &mut TailCb, kind: item::Kind) -> Result<((u8, i32, i32, i32), (u32, u32), usize), u8> {
+    let s = match buf.read_item(cb, kind) {
+        Ok(it) => (fitem_summary(&it), fitem_bytes(&it)),
+        Err(Error::Teehistorian(format::Error::UnexpectedEnd)) => return Err(3),
+        Err(_) => return Err(4),
+    };
+    Ok((s.0, s.1, buf.offset))
+}
+
+/// (length, polynomial byte hash) of the variable-length payload of an item
+fn fitem_bytes(it: &format::Item) -> (u32, u32) {
+    let b: &[u8] = match it {
+        format::Item::Message(m) => m.msg,
+        format::Item::Drop(d) => d.reason,
+        format::Item::UnknownEx(e) => e.data,
+        format::Item::PlayerName(p) => p.name,
+        _ => &[],
+    };
+    let mut s = 0u32;
+    let mut i = 0;
+    while i < b.len() {
+        s = s.wrapping_mul(31).wrapping_add(b[i] as u32 + 1);
+        i += 1;
+    }
+    (b.len() as u32, s)
+}
+
+fn frag_item<const N: usize>(kind: item::Kind, split: usize, chunk: usize) -> (bool, usize) {
+    let rec: [u8; N] = kani::any();
+    let (mut buf_a, mut buf_b) = frag_setup(rec, split, chunk);
+    let mut cb = TailCb { data: [0; 8], len: 0, done: false };
+    unsafe { FRAG_POS = FRAG_LEN; }
+    let ra = parse_item(&mut buf_a, &mut cb, kind);
+    unsafe { FRAG_POS = split; FRAG_REFILLS = 0; }
+    let rb = parse_item(&mut buf_b, &mut cb, kind);
+    assert!(ra == rb);
+    core::mem::forget(buf_a);
+    core::mem::forget(buf_b);
+    (ra.is_ok(), unsafe { FRAG_REFILLS })
+}
+
+/// Lemma A: the decoders are prefix-monotone. On a prefix of the record they either ask for more
+/// (UnexpectedEnd) or return exactly what they return on the whole record (same item, same consumed
+/// count). Together with the read_more contract this makes the outcome of the retry loops of
+/// read_kind/read_item independent of where the stream is cut.
+fn decode_prefix_monotone<const N: usize>(kind: item::Kind) {
+    decode_prefix_monotone_with::<0, N, N>(kind, []);
+}
+
+/// record = concrete `head` (e.g. the UUID of an extension record) followed by symbolic bytes; T = H + N
+fn decode_prefix_monotone_with<const H: usize, const N: usize, const T: usize>(kind: item::Kind, head: [u8; H]) {
+    let sym: [u8; N] = kani::any();
+    let mut rec = [0u8; T];
+    let mut i = 0;
+    while i < H {
+        rec[i] = head[i];
+        i += 1;
+    }
+    let mut i = 0;
+    while i < N {
+        rec[H + i] = sym[i];
+        i += 1;
+    }
+    let k: usize = kani::any();
+    kani::assume(k <= T);
+    let full = {
+        let mut p = Unpacker::new(&rec[..]);
+        match kind.decode_rest(&mut p) {
+            Ok(it) => Ok((fitem_summary(&it), fitem_bytes(&it), p.num_bytes_read())),
+            Err(MaybeEnd::UnexpectedEnd) => Err(1u8),
+            Err(MaybeEnd::Err(_)) => Err(2u8),
+        }
+    };
+    let part = {
+        let mut p = Unpacker::new(&rec[..k]);
+        match kind.decode_rest(&mut p) {
+            Ok(it) => Ok((fitem_summary(&it), fitem_bytes(&it), p.num_bytes_read())),
+            Err(MaybeEnd::UnexpectedEnd) => Err(1u8),
+            Err(MaybeEnd::Err(_)) => Err(2u8),
+        }
+    };
+    assert!(part == Err(1) || part == full);
+    // and a complete record is not asked to continue: if the whole decodes, every prefix that
+    // contains the consumed bytes decodes too
+    if let Ok((_, _, c)) = full {
+        assert!(k < c || part == full);
+    }
+    kani::cover!(part == Err(1) && full.is_ok());
+    kani::cover!(part.is_ok() && k < T);
+}
+
+#[kani::proof]
+#[kani::unwind(9)]
+fn c17_decode_prefix_player_diff() {
+    decode_prefix_monotone::<6>(item::Kind::PlayerDiff(1));
+}
+
+#[kani::proof]
+#[kani::unwind(9)]
+fn c17_decode_prefix_player_new() {
+    decode_prefix_monotone::<6>(item::Kind::PlayerNew(2));
+}
+
+#[kani::proof]
+#[kani::unwind(8)]
+fn c17_decode_prefix_tick_skip() {
+    decode_prefix_monotone::<5>(item::Kind::TickSkip);
+}
+
+#[kani::proof]
+#[kani::unwind(8)]
+fn c17_decode_prefix_join() {
+    decode_prefix_monotone::<5>(item::Kind::Join);
+}
+
+#[kani::proof]
+#[kani::unwind(8)]
+fn c17_decode_prefix_drop() {
+    decode_prefix_monotone::<5>(item::Kind::Drop);
+}
+
+#[kani::proof]
+#[kani::unwind(8)]
+fn c17_decode_prefix_message() {
+    decode_prefix_monotone::<5>(item::Kind::Message);
+}
+
+#[kani::proof]
+#[kani::unwind(15)]
+fn c17_decode_prefix_input_new() {
+    decode_prefix_monotone::<12>(item::Kind::InputNew);
+}
+
+#[kani::proof]
+#[kani::unwind(8)]
+fn c17_decode_prefix_console_command() {
+    decode_prefix_monotone::<5>(item::Kind::ConsoleCommand);
+}
+
+#[kani::proof]
+#[kani::unwind(8)]
+#[kani::stub(Buffer::read_more, Buffer::verif_read_more_model)]
+fn c17_frag_item_player_diff_bytewise() {
+    let (ok, refills) = frag_item::<4>(item::Kind::PlayerDiff(1), 0, 1);
+    kani::cover!(ok && refills >= 2);
+}
+
+#[kani::proof]
+#[kani::unwind(8)]
+#[kani::stub(Buffer::read_more, Buffer::verif_read_more_model)]
+fn c17_frag_item_player_diff_two_piece() {
+    frag_item::<3>(item::Kind::PlayerDiff(1), 0, usize::MAX);
+    frag_item::<3>(item::Kind::PlayerDiff(1), 1, usize::MAX);
+    let (ok, refills) = frag_item::<3>(item::Kind::PlayerDiff(1), 2, usize::MAX);
+    kani::cover!(ok && refills == 1);
+}
+
+#[kani::proof]
+#[kani::unwind(8)]
+#[kani::stub(Buffer::read_more, Buffer::verif_read_more_model)]
+fn c17_frag_item_player_new_bytewise() {
+    let (ok, refills) = frag_item::<4>(item::Kind::PlayerNew(2), 0, 1);
+    kani::cover!(ok && refills >= 2);
+}
+
+#[kani::proof]
+#[kani::unwind(8)]
+#[kani::stub(Buffer::read_more, Buffer::verif_read_more_model)]
+fn c17_frag_item_player_new_two_piece() {
+    frag_item::<3>(item::Kind::PlayerNew(2), 0, usize::MAX);
+    frag_item::<3>(item::Kind::PlayerNew(2), 1, usize::MAX);
+    let (ok, refills) = frag_item::<3>(item::Kind::PlayerNew(2), 2, usize::MAX);
+    kani::cover!(ok && refills == 1);
+}
+
+#[kani::proof]
+#[kani::unwind(8)]
+#[kani::stub(Buffer::read_more, Buffer::verif_read_more_model)]
+fn c17_frag_item_tick_skip_bytewise() {
+    let (ok, refills) = frag_item::<4>(item::Kind::TickSkip, 0, 1);
+    kani::cover!(ok && refills >= 2);
+}
+
+#[kani::proof]
+#[kani::unwind(8)]
+#[kani::stub(Buffer::read_more, Buffer::verif_read_more_model)]
+fn c17_frag_item_tick_skip_two_piece() {
+    frag_item::<3>(item::Kind::TickSkip, 0, usize::MAX);
+    frag_item::<3>(item::Kind::TickSkip, 1, usize::MAX);
+    let (ok, refills) = frag_item::<3>(item::Kind::TickSkip, 2, usize::MAX);
+    kani::cover!(ok && refills == 1);
+}
+
+#[kani::proof]
+#[kani::unwind(8)]
+#[kani::stub(Buffer::read_more, Buffer::verif_read_more_model)]
+fn c17_frag_item_join_bytewise() {
+    let (ok, refills) = frag_item::<4>(item::Kind::Join, 0, 1);
+    kani::cover!(ok && refills >= 2);
+}
+
+#[kani::proof]
+#[kani::unwind(8)]
+#[kani::stub(Buffer::read_more, Buffer::verif_read_more_model)]
+fn c17_frag_item_join_two_piece() {
+    frag_item::<3>(item::Kind::Join, 0, usize::MAX);
+    frag_item::<3>(item::Kind::Join, 1, usize::MAX);
+    let (ok, refills) = frag_item::<3>(item::Kind::Join, 2, usize::MAX);
+    kani::cover!(ok && refills == 1);
+}
+
+#[kani::proof]
+#[kani::unwind(8)]
+#[kani::stub(Buffer::read_more, Buffer::verif_read_more_model)]
+fn c17_frag_item_drop_bytewise() {
+    let (ok, refills) = frag_item::<4>(item::Kind::Drop, 0, 1);
+    kani::cover!(ok && refills >= 2);
+}
+
+#[kani::proof]
+#[kani::unwind(8)]
+#[kani::stub(Buffer::read_more, Buffer::verif_read_more_model)]
+fn c17_frag_item_drop_two_piece() {
+    frag_item::<3>(item::Kind::Drop, 0, usize::MAX);
+    frag_item::<3>(item::Kind::Drop, 1, usize::MAX);
+    let (ok, refills) = frag_item::<3>(item::Kind::Drop, 2, usize::MAX);
+    kani::cover!(ok && refills == 1);
+}
+
+#[kani::proof]
+#[kani::unwind(8)]
+#[kani::stub(Buffer::read_more, Buffer::verif_read_more_model)]
+fn c17_frag_item_message_bytewise() {
+    let (ok, refills) = frag_item::<4>(item::Kind::Message, 0, 1);
+    kani::cover!(ok && refills >= 2);
+}
+
+#[kani::proof]
+#[kani::unwind(8)]
+#[kani::stub(Buffer::read_more, Buffer::verif_read_more_model)]
+fn c17_frag_item_message_two_piece() {
+    frag_item::<3>(item::Kind::Message, 0, usize::MAX);
+    frag_item::<3>(item::Kind::Message, 1, usize::MAX);
+    let (ok, refills) = frag_item::<3>(item::Kind::Message, 2, usize::MAX);
+    kani::cover!(ok && refills == 1);
+}
+
+#[kani::proof]
+#[kani::unwind(8)]
+#[kani::stub(Buffer::read_more, Buffer::verif_read_more_model)]
+fn c17_frag_read_player_diff_bytewise() {
+    // the whole Reader::read step (kind, tick logic, item, position update) on a PLAYER_DIFF record of
+    // a known player, completely buffered vs delivered byte by byte: same item, same reader state
+    let rec: [u8; 3] = kani::any();
+    kani::assume(rec[0] < 4);
+    let tick: i32 = kani::any();
+    let x: i32 = kani::any();
+    let y: i32 = kani::any();
+    let (mut buf_a, mut buf_b) = frag_setup(rec, 0, 1);
+    let mut cb = TailCb { data: [0; 8], len: 0, done: false };
+    let mut ra = reader_state(tick, None, true, None);
+    ra.players.insert(rec[0] as usize, Pos { x: x, y: y });
+    let mut rb = reader_state(tick, None, true, None);
+    rb.players.insert(rec[0] as usize, Pos { x: x, y: y });
+    unsafe { FRAG_POS = FRAG_LEN; }
+    let resa = do_read(&mut ra, &mut cb, &mut buf_a);
+    unsafe { FRAG_POS = 0; FRAG_REFILLS = 0; }
+    let resb = do_read(&mut rb, &mut cb, &mut buf_b);
+    assert!(resa == resb);
+    assert!(ra.tick == rb.tick && ra.in_tick == rb.in_tick && ra.prev_player_cid == rb.prev_player_cid);
+    assert!(buf_a.offset == buf_b.offset);
+    let pa = ra.player_pos(rec[0] as i32);
+    let pb = rb.player_pos(rec[0] as i32);
+    assert!(pa.map(|p| (p.x, p.y)) == pb.map(|p| (p.x, p.y)));
+    kani::cover!(matches!(resa, Ok((4, _, _, _))) && unsafe { FRAG_REFILLS } == 3);
+    kani::cover!(resa.is_err());
+    core::mem::forget(ra);
+    core::mem::forget(rb);
+    core::mem::forget(buf_a);
+    core::mem::forget(buf_b);
+}
+
+#[kani::proof]
+#[kani::unwind(8)]
+fn c17_tick_skip_step_wide() {
+    // TICK_SKIP with any dt the format can express (variable-length integer of up to 5 bytes, decoded
+    // for the oracle by the packer that C08 decides): tick += dt + 1 exactly, overflow and negative dt
+    // are errors, never a panic or a wrapped tick
+    let tick: i32 = kani::any();
+    let in_tick: bool = kani::any();
+    let d: [u8; 5] = kani::any();
+    let bytes = [0x41u8, d[0], d[1], d[2], d[3], d[4]];
+    let dt = {
+        let mut u = Unpacker::new(&bytes[1..]);
+        match u.read_int(&mut libtw2_warn::Ignore) {
+            Ok(v) => v,
+            Err(_) => {
+                kani::assume(false);
+                0
+            }
+        }
+    };
+    let mut buf = buffer_with(&bytes, 6);
+    let mut r = reader_state(tick, kani::any(), in_tick, None);
+    let mut cb = TailCb { data: [0; 8], len: 0, done: false };
+    let res = do_read(&mut r, &mut cb, &mut buf);
+    let target = tick as i64 + 1 + dt as i64;
+    match res {
+        Ok((2, t, _, _)) => assert!(in_tick && t == tick && dt >= 0 && r.tick as i64 == target),
+        Ok((1, t, _, _)) => assert!(!in_tick && dt >= 0 && t as i64 == target && r.tick == t),
+        Ok(_) => assert!(false),
+        Err(_) => assert!(dt < 0 || target > i32::MAX as i64),
+    }
+    if res.is_ok() {
+        assert!(r.tick > tick);
+    }
+    kani::cover!(res.is_ok() && dt > 1_000_000);
+    kani::cover!(res.is_err() && dt == i32::MAX);
+    core::mem::forget(r);
+    core::mem::forget(buf);
+}
